@@ -293,6 +293,9 @@ def c19(ctx):
             fmt = r.choice(['bz2', 'xz', 'gz'])
             ov['format'] = fmt
             argv += ['-C', fmt]
+        if r.random() < 0.15:
+            # a key id without a request to sign: names the key to use if the tree is (or gets) signed, changes nothing else
+            argv += [r.choice(['-k', '--openpgp-id']), '0xDEADBEEF']
         c.argv = argv + ['@']
         c.opts = (hashes, None, wm, fmt, profile, None, None, True)
         c.meta['profile'] = profile
@@ -339,7 +342,8 @@ def c19(ctx):
                     out['edits'] = edits
                     ovr = c.meta['overrides']
                     uargv = ['update', '-p', c.meta['profile']] + (['-H', ' '.join(ovr['hashes'])] if 'hashes' in ovr else []) \
-                        + (['-c', str(ovr['watermark'])] if 'watermark' in ovr else []) + (['-C', ovr['format']] if 'format' in ovr else []) + [b]
+                        + (['-c', str(ovr['watermark'])] if 'watermark' in ovr else []) + (['-C', ovr['format']] if 'format' in ovr else []) \
+                        + (['-k', '0xDEADBEEF'] if '0xDEADBEEF' in c.argv else []) + [b]
                     out['update'] = p_c18.run_cli(uargv, key)
                     if out['update'] == ['exit', 0]:
                         out['files2'] = ET.canon_files(ET.list_real_files(b))
